@@ -180,7 +180,7 @@ func Check(tier string) int {
 	b := common.Prepare(prop, false)
 	st := &Stats{}
 	thorough := tier == "thorough"
-	ngen, budget := 40, 8*time.Minute
+	ngen, budget := 64, 8*time.Minute
 	if thorough {
 		ngen, budget = 900, 40*time.Minute
 	}
